@@ -45,19 +45,20 @@ type knownFinding struct {
 }
 
 type replayFile struct {
-	Harness  string                 `json:"harness"`
-	Label    string                 `json:"label"`
-	Inputs   map[string]interface{} `json:"inputs"`
-	Forks    []int                  `json:"forks"`
-	Tier     int                    `json:"tier"`
-	Reached  []string               `json:"reached,omitempty"`
-	Observed []string               `json:"observed,omitempty"`
-	Outcome  string                 `json:"outcome,omitempty"`
-	Detail   string                 `json:"detail,omitempty"`
-	Property string                 `json:"property,omitempty"`
-	Tables   map[string][]string    `json:"tables,omitempty"`
-	Repeat   int                    `json:"repeat,omitempty"`
-	Schedule []int                  `json:"schedule,omitempty"`
+	Harness      string                 `json:"harness"`
+	Label        string                 `json:"label"`
+	Inputs       map[string]interface{} `json:"inputs"`
+	Forks        []int                  `json:"forks"`
+	Tier         int                    `json:"tier"`
+	Reached      []string               `json:"reached,omitempty"`
+	Observed     []string               `json:"observed,omitempty"`
+	Outcome      string                 `json:"outcome,omitempty"`
+	Detail       string                 `json:"detail,omitempty"`
+	Property     string                 `json:"property,omitempty"`
+	Tables       map[string][]string    `json:"tables,omitempty"`
+	Repeat       int                    `json:"repeat,omitempty"`
+	SkipObserved bool                   `json:"skip_observed,omitempty"`
+	Schedule     []int                  `json:"schedule,omitempty"`
 }
 
 type nativeResult struct {
@@ -219,6 +220,10 @@ func runCheck(id, tier string, seed int64, only string) int {
 				continue
 			}
 			rf := replayFile{Harness: rep.Harness, Inputs: s.Inputs, Tier: tierN, Reached: s.Reached, Observed: s.Observed, Outcome: s.Outcome, Property: id, Tables: s.Tables}
+			if s.ObservedSymbolic {
+				rf.Observed = nil
+				rf.SkipObserved = true
+			}
 			rf.Forks = forksFromTraceSample(s)
 			p := filepath.Join(rdir, fmt.Sprintf("%s-s%d.json", rep.Harness, cnt))
 			pend = append(pend, pending{rf, p, false})
@@ -259,7 +264,7 @@ func runCheck(id, tier string, seed int64, only string) int {
 		if !p.viol {
 			// conformance: native run must agree with the engine on this path
 			if len(nr.Failures) == 0 && !nr.AssumeFailed && nr.Panicked == "" && !nr.TimedOut &&
-				sameStrings(nr.Reached, p.rf.Reached) && sameStrings(nr.Observed, p.rf.Observed) {
+				sameStrings(nr.Reached, p.rf.Reached) && (p.rf.SkipObserved || sameStrings(nr.Observed, p.rf.Observed)) {
 				validated++
 			} else {
 				mismatches = append(mismatches, fmt.Sprintf("%s: native=%+v engine reached=%v observed=%v", filepath.Base(p.path), *nr, p.rf.Reached, p.rf.Observed))
